@@ -513,7 +513,13 @@ def apply_step(pool, l, chinfo):
         g = ax0(l['group'])
         new_rank = a.rank - len(g) + 1
         na = l['na'] - 1
-        return 'store', a.combine_legs([g], new_axes=[na - new_rank if l['neg'] else na], qconj=[l['qconj']])
+        if l['neg']:
+            return 'store', a.combine_legs([g], new_axes=(na - new_rank,), qconj=[l['qconj']])  # a tuple, negative entry
+        arg = [na]
+        res = a.combine_legs([g], new_axes=arg, qconj=[l['qconj']])
+        if arg != [na]:
+            raise ValueError('combine_legs modified its new_axes argument')
+        return 'store', res
     if op == 'split_legs':
         return 'store', a.split_legs([l['x'] - 1])
     if op == 'take_slice':
